@@ -15,6 +15,7 @@ FUNG = WT + "/packages/tokens/src/fungible/storage.rs"
 PAUS = WT + "/packages/contract-utils/src/pausable/storage.rs"
 CMP = WT + "/packages/tokens/src/rwa/compliance/storage.rs"
 IDV = WT + "/packages/tokens/src/rwa/identity_verifier/storage.rs"
+BIND = WT + "/packages/tokens/src/rwa/utils/token_binder/storage.rs"
 
 MUT = {
  # ---- mutants that must be reported ----
@@ -208,6 +209,57 @@ MUT = {
     }
 }"""),
  "hi1_claim_topic_and_issuer_compared_in_other_order": (IDV, "if claim.topic == claim_topic && claim.issuer == *issuer {", "if *issuer == claim.issuer && claim_topic == claim.topic {"),
+ # ---- persistence class: state that silently lapses after enough ledgers ("rent optimisations") ----
+ "p01_address_frozen_flag_in_temporary_storage": ("multi", [
+    (F, """        if let Some(frozen) = e.storage().persistent().get::<_, bool>(&key) {
+            e.storage().persistent().extend_ttl(&key, FROZEN_TTL_THRESHOLD, FROZEN_EXTEND_AMOUNT);""", """        if let Some(frozen) = e.storage().temporary().get::<_, bool>(&key) {
+            e.storage().temporary().extend_ttl(&key, FROZEN_TTL_THRESHOLD, FROZEN_EXTEND_AMOUNT);""", 1, 1),
+    (F, "e.storage().persistent().set(&RWAStorageKey::AddressFrozen(user_address.clone()), &freeze);",
+        "e.storage().temporary().set(&RWAStorageKey::AddressFrozen(user_address.clone()), &freeze);", 1, 1)]),
+ "p02_frozen_tokens_in_temporary_storage": ("multi", [
+    (F, """        if let Some(frozen_amount) = e.storage().persistent().get::<_, i128>(&key) {
+            e.storage().persistent().extend_ttl(&key, FROZEN_TTL_THRESHOLD, FROZEN_EXTEND_AMOUNT);""", """        if let Some(frozen_amount) = e.storage().temporary().get::<_, i128>(&key) {
+            e.storage().temporary().extend_ttl(&key, FROZEN_TTL_THRESHOLD, FROZEN_EXTEND_AMOUNT);""", 1, 1),
+    (F, "e.storage().persistent().set(&RWAStorageKey::FrozenTokens(from.clone()), &new_frozen);", "e.storage().temporary().set(&RWAStorageKey::FrozenTokens(from.clone()), &new_frozen);", 1, 1),
+    (F, """                .persistent()
+                .set(&RWAStorageKey::FrozenTokens(user_address.clone()), &new_frozen);""", """                .temporary()
+                .set(&RWAStorageKey::FrozenTokens(user_address.clone()), &new_frozen);""", 1, 1),
+    (F, """            .persistent()
+            .set(&RWAStorageKey::FrozenTokens(user_address.clone()), &new_frozen);""", """            .temporary()
+            .set(&RWAStorageKey::FrozenTokens(user_address.clone()), &new_frozen);""", 2, 2)]),
+ "p03_pause_flag_in_temporary_storage": ("multi", [(PAUS, "e.storage().instance()", "e.storage().temporary()", 3, 3)]),
+ "p04_balances_in_temporary_storage": ("multi", [
+    (FUNG, """        if let Some(balance) = e.storage().persistent().get::<_, i128>(&key) {
+            e.storage().persistent().extend_ttl(&key, BALANCE_TTL_THRESHOLD, BALANCE_EXTEND_AMOUNT);""", """        if let Some(balance) = e.storage().temporary().get::<_, i128>(&key) {
+            e.storage().temporary().extend_ttl(&key, BALANCE_TTL_THRESHOLD, BALANCE_EXTEND_AMOUNT);""", 1, 1),
+    (FUNG, """                .persistent()
+                .set(&FungibleStorageKey::Balance(account.clone()),""", """                .temporary()
+                .set(&FungibleStorageKey::Balance(account.clone()),""", 2, 2)]),
+ "p05_freeze_flag_consumed_by_the_read": (F, """        if let Some(frozen) = e.storage().persistent().get::<_, bool>(&key) {
+            e.storage().persistent().extend_ttl(&key, FROZEN_TTL_THRESHOLD, FROZEN_EXTEND_AMOUNT);
+            frozen""", """        if let Some(frozen) = e.storage().persistent().get::<_, bool>(&key) {
+            // one-shot freeze: free the entry once it has been enforced
+            e.storage().persistent().remove(&key);
+            frozen"""),
+ "p06_compliance_module_lists_in_temporary_storage": ("multi", [(CMP, "e.storage().persistent()", "e.storage().temporary()", 4, 4)]),
+ "p07_token_bindings_in_temporary_storage": ("multi", [(BIND, "e.storage().persistent()", "e.storage().temporary()", 10, 20)]),
+ "p08_verifier_registry_links_in_temporary_storage": ("multi", [(IDV, """        .instance()""", """        .temporary()""", 4, 4)]),
+ "p09_token_collaborator_links_in_temporary_storage": ("multi", [
+    (F, "e.storage().instance().set(&RWAStorageKey::Compliance, compliance);", "e.storage().temporary().set(&RWAStorageKey::Compliance, compliance);", 1, 1),
+    (F, "e.storage().instance().set(&RWAStorageKey::IdentityVerifier, identity_verifier);", "e.storage().temporary().set(&RWAStorageKey::IdentityVerifier, identity_verifier);", 1, 1),
+    (F, """            .instance()
+            .get(&RWAStorageKey::Compliance)""", """            .temporary()
+            .get(&RWAStorageKey::Compliance)""", 1, 1),
+    (F, """            .instance()
+            .get(&RWAStorageKey::IdentityVerifier)""", """            .temporary()
+            .get(&RWAStorageKey::IdentityVerifier)""", 1, 1)]),
+ "p10_allowance_ttl_halved_diff_only": (FUNG, "e.storage().temporary().extend_ttl(&key, live_for, live_for);", "e.storage().temporary().extend_ttl(&key, live_for / 2, live_for / 2);"),
+ "hp1_persistent_ttl_extension_shortened": ("multi", [(WT + "/packages/tokens/src/rwa/mod.rs", "pub const FROZEN_EXTEND_AMOUNT: u32 = 30 * DAY_IN_LEDGERS;", "pub const FROZEN_EXTEND_AMOUNT: u32 = 2 * DAY_IN_LEDGERS;", 1, 1)]),
+ "hp2_extra_ttl_extension_on_write": (F, """        e.storage().persistent().set(&RWAStorageKey::AddressFrozen(user_address.clone()), &freeze);
+""", """        let key = RWAStorageKey::AddressFrozen(user_address.clone());
+        e.storage().persistent().set(&key, &freeze);
+        e.storage().persistent().extend_ttl(&key, FROZEN_TTL_THRESHOLD, FROZEN_EXTEND_AMOUNT);
+"""),
  # ---- harmless rewrites that must stay quiet ----
  "h01_reorder_pause_and_freeze_checks_new_error_code": (F, """        // Check if contract is paused
         if paused(e) {
@@ -267,12 +319,16 @@ def main():
     names = sys.argv[1:] or list(MUT)
     seed = os.environ.get("VERIF_SEED", "1")
     for nm in names:
-        path, old, new = MUT[nm]
         sh(f"git -C {WT} checkout -- .")
-        src = open(path).read()
-        if src.count(old) != 1:
-            print(f"{nm}: PATTERN COUNT {src.count(old)} != 1"); continue
-        open(path, "w").write(src.replace(old, new))
+        ent = MUT[nm]
+        edits = ent[1] if ent[0] == "multi" else [(ent[0], ent[1], ent[2], 1, 1)]
+        bad = False
+        for path, old, new, lo, hi in edits:
+            src = open(path).read()
+            if not (lo <= src.count(old) <= hi):
+                print(f"{nm}: PATTERN COUNT {src.count(old)} not in [{lo},{hi}] for {old[:50]!r}"); bad = True; break
+            open(path, "w").write(src.replace(old, new))
+        if bad: continue
         r = sh(f"cd /verif && VERIF_REPO={WT} VERIF_SEED={seed} ./check C04")
         lines = [l for l in r.stdout.splitlines() if l.startswith(("VIOLATION", "BROKEN", "C04:", "KNOWN"))]
         print(f"{nm}: exit={r.returncode} | " + " | ".join(lines), flush=True)
